@@ -606,7 +606,7 @@ func currentLeafMode(c *stats.Case, units []propeller.Unit) leafMode {
 }
 
 func TestPropCreateReconstruct(t *testing.T) {
-	stats.Check(t, stats.Budget{Quick: 10000, Thorough: 150000},
+	stats.Check(t, stats.Budget{Quick: 10000, Thorough: 120000},
 		"CreatePropellerUnits for lengths 0..4 KiB (padding/varint boundaries), (data,parity) in 1..8 x 1..8, Ed25519 key, committee, nonce: units equal the "+
 			"reference publisher field by field, proofs and signature verify (package verifier + independent verifier); index-addressed slice with nil holes for any "+
 			"present subset of size >= data (shard 0 missing, all data shards missing, exactly threshold) -> ConstructMessageFromUnits returns the message bit for bit "+
@@ -1017,7 +1017,7 @@ func (w *world) corrupt(rt *rapid.T, c *stats.Case) (ev event, skip bool) {
 }
 
 func TestPropValidatePipeline(t *testing.T) {
-	stats.Check(t, stats.Budget{Quick: 8000, Thorough: 120000},
+	stats.Check(t, stats.Budget{Quick: 8000, Thorough: 100000},
 		"receiver of a committee of N in 2..25 Ed25519 peers (data/coding from the scheduler), any local/publisher pair: honest units (CreatePropellerUnits -> protobuf "+
 			"round trip) of a present subset >= BuildThreshold arrive in any order from their scheduled senders, interleaved with 0..4 adversarial deliveries each wrong in "+
 			"exactly one field (shard byte/length/count, proof sibling/length, index in/out of range, signature, committee, publisher, nonce, root, sender, duplicate); "+
